@@ -21,12 +21,13 @@
 EXTENDS Naturals, FiniteSets, Sequences, TLC
 
 CONSTANTS Writers, Readers,   \* process names (strings)
+          Packers,            \* processes that run pack() (repack everything they know) instead of committing
           InitPacks,          \* number of packs (one key each) present initially
           MaxCommits,         \* commits per writer
           MaxPacks,           \* autopack when a writer has more than this many packs in memory (MC only)
           MaxCrashes
 
-Procs == Writers \cup Readers
+Procs == Writers \cup Readers \cup Packers
 NoPack == 0
 InitIds == 1..InitPacks
 
@@ -71,7 +72,7 @@ Latch(S) == viol' = viol \cup S
 Load(p) ==
   /\ alive[p] /\ pc[p] = "idle" /\ done[p] < MaxCommits
   /\ mem' = [mem EXCEPT ![p] = namesFile] /\ atLoad' = [atLoad EXCEPT ![p] = namesFile]
-  /\ Goto(p, IF p \in Writers THEN "write" ELSE "read")
+  /\ Goto(p, IF p \in Readers THEN "read" ELSE "write")
   /\ UNCHANGED <<namesFile, packsDir, idxDir, obsDir, content, nextId, lock, newp, obs, done, alive, committed, crashes, viol>>
 
 \* reload_pack_names: three-way merge of memory with the new disk list; _packs_at_load := disk
@@ -92,14 +93,16 @@ Publish(p, keys) ==
 
 \* autopack: the packer has read every chosen pack (earlier, while they were present) and publishes the combination
 PackOk(p, chosen) ==
-  /\ alive[p] /\ pc[p] = "lock" /\ obs[p] = {} /\ chosen \subseteq mem[p] /\ Cardinality(chosen) >= 2
+  /\ alive[p] /\ pc[p] \in {"lock", "write"} /\ obs[p] = {} /\ chosen \subseteq mem[p] /\ Cardinality(chosen) >= 1
+  /\ pc[p] = "write" => newp[p] = NoPack          \* pack(): no write group of its own
   /\ packsDir' = packsDir \cup {nextId} /\ idxDir' = idxDir \cup {nextId}
   /\ content' = [i \in DOMAIN content \cup {nextId} |->
                    IF i = nextId THEN UNION {content[j] : j \in chosen} ELSE content[i]]
   /\ nextId' = nextId + 1
   /\ mem' = [mem EXCEPT ![p] = (@ \ chosen) \cup {nextId}]
   /\ obs' = [obs EXCEPT ![p] = chosen \X {"pack", "idx"}]
-  /\ UNCHANGED <<namesFile, obsDir, lock, pc, atLoad, newp, done, alive, committed, crashes, viol>>
+  /\ Goto(p, "lock")
+  /\ UNCHANGED <<namesFile, obsDir, lock, atLoad, newp, done, alive, committed, crashes, viol>>
 
 \* reload_pack_names outside the names lock: at lock time (_refresh_data), after a packer found a pack missing
 \* (RetryAutopack), after a reader found a pack missing
@@ -158,9 +161,15 @@ ObsoleteIdx(p, i) ==
   /\ Goto(p, IF obs[p] \ {<<i, "idx">>} # {} THEN "obsolete" ELSE "tip")
   /\ UNCHANGED <<namesFile, packsDir, content, nextId, lock, mem, atLoad, newp, done, alive, committed, crashes>>
 
+\* pack() is finished
+EndPack(p) ==
+  /\ alive[p] /\ pc[p] = "tip" /\ newp[p] = NoPack
+  /\ done' = [done EXCEPT ![p] = @ + 1] /\ Goto(p, "idle")
+  /\ UNCHANGED <<namesFile, packsDir, idxDir, obsDir, content, nextId, lock, mem, atLoad, newp, obs, alive, committed, crashes, viol>>
+
 \* the commit completes (branch tip written): from now on the data must stay visible
 SetTip(p) ==
-  /\ alive[p] /\ pc[p] = "tip"
+  /\ alive[p] /\ pc[p] = "tip" /\ newp[p] # NoPack
   /\ committed' = committed \cup content[newp[p]]
   /\ done' = [done EXCEPT ![p] = @ + 1]
   /\ newp' = [newp EXCEPT ![p] = NoPack]
